@@ -255,6 +255,10 @@ class Verifier:
         eng.probes = self.make_probes(eng, names)
         for qual, pred, gname, elem in self.spec.spawn_ghosts:
             eng.pending_ghost(gname)
+            if fi.node.name == '__init__':
+                # nothing has been spawned when the actors are constructed
+                st.ghost[gname + '.cnt'] = EMPTY_CNT
+                st.ghost[gname + '.n'] = z3.IntVal(0)
         if frm == -1:
             # this process was pending (spawned, not started) until now: S3 bookkeeping
             for qual, pred, gname, elem in self.spec.spawn_ghosts:
